@@ -120,6 +120,18 @@ def r1_delay_thunk_under_lock(ctx):
                            + ("; an update function given to Atom.swap is re-run by every racing thread" if ".swap(" in P.un(st) else ""))
                 else:
                     ok = True
+                    # a direct call self.m(X): the state X whose computed flag m tests must have been
+                    # read inside the same critical section (not a snapshot taken before the lock)
+                    for um, u in uses:
+                        call = P.parent(u)
+                        if isinstance(call, ast.Call) and call.func is u and call.args and isinstance(call.args[0], ast.Name):
+                            x = call.args[0].id
+                            w = next((w for w, it in P.with_items_enclosing(call, um) if P.un(it.context_expr) in locks), None)
+                            reads = [a for a in P.walk_local(um) if isinstance(a, ast.Assign) and any(P.un(t) == x for t in a.targets)]
+                            if w is not None and reads and not all(P.contains(w, a) for a in reads):
+                                ok = False
+                                why = (f"Delay.{um.name} passes `{x}`, a snapshot of the state read before taking the lock, to {m.name}: a thread that saw "
+                                       "'not computed' while another was still running the body runs the body again after that run has returned")
         if ok:
             # the computed-test must control the call in the same extent
             has_guard = False
@@ -147,6 +159,30 @@ def r1_delay_thunk_under_lock(ctx):
     _ = sites
 
 
+def _publication_safe(cls, m, read_node, flag) -> bool:
+    """An unlocked read of the value slot is safe only behind a true test of the delivered flag,
+    and only if every writer stores the value *before* it sets the flag."""
+    g = CFG(m)
+    rn = [nd for nd in g.nodes if nd.kind in ("stmt", "test") and nd.ast is not None and P.contains(nd.ast, read_node)]
+
+    def flag_true(a, b, lab):
+        return a.kind == "test" and P.un(a.ast) == f"self.{flag}" and lab is True
+
+    if not rn or not all(g.edge_dominated(x, flag_true) for x in rn):
+        return False
+    for w in P.all_methods(cls):
+        if w.name == "__init__":
+            continue
+        stores = P.self_attr_stores(w)
+        fl = [s for s, a in stores if a == flag]
+        vs = [s for s, a in stores if a == read_node.attr]
+        for f in fl:
+            for v in vs:
+                if v.lineno > f.lineno:
+                    return False
+    return True
+
+
 @rule("C13.R2", floor=6)
 def r2_promise_discipline(ctx):
     """Promise: every access to _value/_is_delivered outside __init__ is inside `with
@@ -168,6 +204,13 @@ def r2_promise_discipline(ctx):
             if P.is_self_attr(n) and n.attr in fields:
                 ok = _under(n, locks, m)
                 kind = "store" if isinstance(n.ctx, ast.Store) else "read"
+                if not ok and kind == "read" and n.attr == flag:
+                    # an unlocked read of the monotone flag alone is harmless (it only ever goes False -> True)
+                    ctx.ob("C13.R2", f"{PROMISE}::Promise.{m.name}::{kind}::{P.un(P.stmt_of(n))}::{n.attr}", PROMISE, n.lineno, True, "unlocked read of the monotone delivered flag")
+                    continue
+                if not ok and kind == "read" and _publication_safe(cls, m, n, flag):
+                    ctx.ob("C13.R2", f"{PROMISE}::Promise.{m.name}::{kind}::{P.un(P.stmt_of(n))}::{n.attr}", PROMISE, n.lineno, True, "unlocked read behind the flag; deliver publishes the value before the flag")
+                    continue
                 ctx.ob("C13.R2", f"{PROMISE}::Promise.{m.name}::{kind}::{P.un(P.stmt_of(n))}::{n.attr}", PROMISE, n.lineno, ok,
                        "" if ok else f"{kind} of self.{n.attr} outside `with {sorted(locks)[0]}`")
         for stmt, attr in P.self_attr_stores(m):
@@ -279,7 +322,7 @@ SELFTEST = [
     {"name": "delay fast path calls thunk outside lock", "file": DELAY, "expect": "C13.R1",
      "old": "        with self._lock:\n            return self._state.swap(self.__deref).value\n",
      "new": "        st = self._state.deref()\n        if not st.computed:\n            self._state.reset(self.__deref(st))\n        with self._lock:\n            return self._state.swap(self.__deref).value\n"},
-    {"name": "promise flag read outside condition", "file": PROMISE, "expect": "C13.R2",
+    {"name": "twin: realized? reads the monotone flag without the condition", "file": PROMISE, "expect": None,
      "old": "        with self._condition:\n            return self._is_delivered\n", "new": "        return self._is_delivered\n"},
     {"name": "promise deliver overwrites", "file": PROMISE, "expect": "C13.R2",
      "old": "            if not self._is_delivered:\n                self._is_delivered = True\n                self._value = value\n                self._condition.notify_all()\n",
@@ -298,7 +341,17 @@ SELFTEST = [
      "new": "        except Exception:\n            return timeout_val\n"},
     {"name": "future realized? from cancelled", "file": FUTURES, "expect": "C13.R4",
      "old": "    def is_realized(self) -> bool:\n        return self.done()\n", "new": "    def is_realized(self) -> bool:\n        return not self._future.running()\n"},
+    {"name": "seeded C13/a: unlocked fast path reads the value while deliver sets the flag first", "file": PROMISE, "expect": "C13.R2",
+     "old": "        with self._condition:\n            if self._condition.wait_for(", "new": "        if self._is_delivered:\n            return self._value\n        with self._condition:\n            if self._condition.wait_for("},
+    {"name": "seeded C13/b: delay recomputes from a snapshot taken before the lock", "file": DELAY, "expect": "C13.R1",
+     "old": "        with self._lock:\n            return self._state.swap(self.__deref).value\n",
+     "new": "        state = self._state.deref()\n        if state.computed:\n            return state.value\n        with self._lock:\n            return self._state.reset(self.__deref(state)).value\n"},
     # twins
+    {"name": "twin: unlocked fast path with value published before the flag", "file": PROMISE, "expect": None,
+     "edits": [
+         {"file": PROMISE, "old": "                self._is_delivered = True\n                self._value = value\n", "new": "                self._value = value\n                self._is_delivered = True\n"},
+         {"file": PROMISE, "old": "        with self._condition:\n            if self._condition.wait_for(", "new": "        if self._is_delivered:\n            return self._value\n        with self._condition:\n            if self._condition.wait_for("},
+     ]},
     {"name": "twin: double-checked delay", "file": DELAY, "expect": None,
      "old": "        with self._lock:\n            return self._state.swap(self.__deref).value\n",
      "new": "        st = self._state.deref()\n        if st.computed:\n            return st.value\n        with self._lock:\n            return self._state.swap(self.__deref).value\n"},
